@@ -83,6 +83,8 @@ Definition seen_family (n : nat) : list (list nat) :=
   [] :: seq 0 n :: filter Nat.even (seq 0 n) :: rev (filter Nat.odd (seq 0 n)) ::
   map (fun k => filter (fun i => negb (i =? k)%nat) (seq 0 n)) (seq 0 n).
 
+Definition tests_of (b : block) : list test := match b with Guarded _ _ ts | Plain ts => ts end.
+
 Definition onat_eqb (a b : option nat) : bool :=
   match a, b with Some x, Some y => (x =? y)%nat | None, None => true | _, _ => false end.
 
@@ -244,10 +246,17 @@ Definition check (e : env) (c : case) : list N :=
       (if (gen_var n =? Z.to_nat nwords)%nat &&
           list_eqb (fun a b : nat * Z => (fst a =? fst b)%nat && (snd a =? snd b)) (map (gen_setbit n) (seq 0 n))
                    (map (fun p : Z * Z => (Z.to_nat (fst p), snd p)) setbits) &&
-          list_eqb block_eqb (gen_if_not_set n) prog
+          (* the tests, in order; guards are compared by what they mean (below), not by their text, so that
+             adding or dropping a sound `if isset[w] != full` shortcut is not a disagreement *)
+          list_eqb test_eqb (flat_map tests_of (gen_if_not_set n)) (flat_map tests_of prog)
        then [] else [1%N]) ++
       (if (length setbits =? n)%nat &&
-          forallb (fun seen => onat_eqb (run (obs_state setbits seen) prog) (first_unset n seen)) (seen_family n)
+          forallb (fun seen => onat_eqb (run (obs_state setbits seen) prog) (first_unset n seen)) (seen_family n) &&
+          forallb (fun b => match b with
+                            | Plain _ => true
+                            | Guarded w full ts =>
+                                forallb (fun t => match t with Test w' mask _ => (w' =? w)%nat && (Z.land full mask =? mask) end) ts
+                            end) prog
        then [] else [18%N])
   end.
 
